@@ -188,7 +188,8 @@ def _rjob(args):
 def run_refactors(prop: str, ctx: Context) -> Tuple[int, List[Dict]]:
     """Independent behaviour-preserving refactorings written for this property must leave its rules silent."""
     from concurrent.futures import ProcessPoolExecutor
-    jobs = [(prop, ctx.repo.root, r["id"], r["patch_text"]) for r in refactors() if r.get("property") == prop and r.get("keep_silent", True)]
+    metas = {r["id"]: r for r in refactors()}
+    jobs = [(prop, ctx.repo.root, r["id"], r["patch_text"]) for r in metas.values() if r.get("property") == prop and r.get("keep_silent", True)]
     rows, rc = [], 0
     if not jobs:
         return rc, rows
@@ -200,6 +201,11 @@ def run_refactors(prop: str, ctx: Context) -> Tuple[int, List[Dict]]:
             print(f"FALSE-ALARM-ON-REFACTORING property={prop} refactoring={rid} {keys}")
             rc = 2
         elif status == "analysis-error":
-            print(f"CANNOT-DECIDE-REFACTORING property={prop} refactoring={rid} {err[:120]}")
-            rc = 2
+            if metas[rid].get("expected") == "cannot-decide":
+                # recorded limit: the rules refuse to decide this restructuring (exit 2 on that tree, never a VIOLATION line)
+                rows[-1]["status"] = "cannot-decide (recorded limit)"
+                print(f"NOTE property={prop} refactoring={rid} cannot be decided (recorded limit): {err[:100]}")
+            else:
+                print(f"CANNOT-DECIDE-REFACTORING property={prop} refactoring={rid} {err[:120]}")
+                rc = 2
     return rc, rows
